@@ -1,17 +1,21 @@
-SPECIFICATION Spec
+SPECIFICATION GenSpec
 CONSTANTS
-  Names = {"alice"}
+  Names = {"alice", "bob"}
   Pws = {"Secret1", "secret1", "LONG"}
   LongPws = {"LONG"}
   ExtraCands = {"", "SECRET1", "Secret1 ", "wrong"}
   PermSets = {{}, {"ego.logon"}, {"ego.root"}, {"other"}, {"ego.logon", "other"}}
   InitFmts = {"bcrypt", "sha", "plain"}
-  InitCosts = {4, 12}
+  InitCosts = {4}
   Spellings = {"exact", "upper", "mixed", "padded", "ghost", "empty"}
   CandKinds = {"lit", "stored", "cyc", "braced", "hashof"}
   MaxVer = 2
-  Impl = "bcryptcyc"
-INVARIANTS TypeOK
-PROPERTIES ReplyRight AcceptanceKept UpgradeShape FailedWritesNothing
-VIEW View
+  Impl = "code"
+  Depth = 24
+  Budget = 8
+  Mode = "walk"
+  TableSp = {}
+  TableKinds = {}
+  TableLits = {}
+INVARIANTS Emit
 CHECK_DEADLOCK FALSE
